@@ -29,7 +29,7 @@ def rand_bytes(rng, n, kind=None):
     if kind == "lowent": return bytes(rng.choice(b"\x00\x01\x80") for _ in range(n))
     return bytes(rng.getrandbits(8) for _ in range(n))
 
-STEMS = ["a", "black", "a-b", "a.b", "x.tar", "trail", "A", "17", "_x", "a b", "q'uo", "é", "日本", "a--b", "a_b", "n17", "Z9-z.q_"]
+STEMS = ["a", "black", "a-b", "a.b", "x.tar", "trail", "A", "17", "_x", "a b", "q'uo", "é", "日本", "a--b", "a_b", "n17", "Z9-z.q_", "v2.", "notes..", "css", "a.css", "js.", ".hid"]
 EXTS = ["css", "js", "txt", "PNG", "gz", "", "b-c", "ü", "woff2", "x_y"]
 DIRS = ["", "", "st/", "a/b/c/", "x.d/", "é/"]
 
@@ -426,10 +426,41 @@ def run_c09(pid, tier):
             mg = [None if x == "!" else unhexs(x.split("=")[0]) for x in mq.split(",")] if mq != "-" else []
             if mg != rr["gets"]:
                 disagree.append((h, "get() results", str(rr["gets"]), str(mg)))
+    # the same OUT_DIR over several runs: files edited (same length and modification time, or not), added and removed between runs;
+    # after every run the module lists exactly the files added in that run, each once, in ascending order
+    import build_lib
+    scen = []; wants = []
+    for _ in range(10 if tier == "quick" else 60):
+        files = {"a.css": rand_bytes(rng, rng.choice([1, 9, 40]), "rand") or b"a", "b.js": b"bb", "lib-1.2.js": b"l"}
+        prog = [('s',), ('g', 'st')]
+        steps = [('W', 'st/' + n, c) for n, c in files.items()] + [('R', prog)]; ws = [dict(files)]
+        for _ in range(3):
+            k = rng.choice(["same_len", "same_len", "grow", "add", "del"])
+            if k == "same_len": files["a.css"] = bytes([files["a.css"][0] ^ 1]) + files["a.css"][1:]; steps.append(('T', 'st/a.css', files["a.css"]))
+            elif k == "grow": files["a.css"] += b"}"; steps.append(('W', 'st/a.css', files["a.css"]))
+            elif k == "add": nm = "n%d.png" % len(steps); files[nm] = b"p"; steps.append(('W', 'st/' + nm, b"p"))
+            elif len(files) > 1:
+                nm = sorted(files)[-1]; del files[nm]; steps.append(('X', 'st/' + nm))
+            steps += [('Z',), ('R', prog)]; ws.append(dict(files))
+        scen.append(steps); wants.append(ws)
+    for ws, r in zip(wants, build_lib.run_scenarios(scen)):
+        runs = [x for x in r["runs"] if x["kind"] == "R"]
+        chk.count(("persist %r" % sorted(ws[-1].items())).encode(), True)
+        for k, (run, files) in enumerate(zip(runs, ws)):
+            st = (run["after"].get(b"templates/statics.rs") or (b"", ""))[0] or b""
+            want = sorted(split_name(n)[0] + b"-" + py_slug(c) + b"." + split_name(n)[1] for n, c in files.items())
+            byid = dict(re.findall(rb'pub static (\w+): StaticFile = StaticFile \{\n  content: [^\n]*\n  name: "([^"]*)"', st))
+            lm = re.search(rb'pub static STATICS: &\[&StaticFile\] = &\[([^\]]*)\];', st)
+            got = [byid.get(x.strip().lstrip(b"&"), b"?" + x) for x in lm.group(1).split(b",")] if lm and lm.group(1).strip() else []
+            if run["status"] != "ok" or got != want or len(byid) != len(want):
+                oracle_fail.append(("run %d into one OUT_DIR after edits of the static files" % (k + 1),
+                                    "the module does not list exactly the files added in this run, once each, ascending: %r, added %r" % (got, want), None)); break
+            if "model" in run and run["model"].get("fs", {}).get(b"templates/statics.rs") not in (None, st):
+                disagree.append(("persistent OUT_DIR", "statics.rs on run %d" % (k + 1), st[-300:].decode("latin1"), ""))
     for h in hist[:2] + hist[-1:]:
         chk.sample(dict(ops=[(op[0], op[1], op[2] if op[0] == "A" else len(op[2])) for op in h]))
     chk.cov["rule"] = ("file sets with pairwise distinct identifiers and url names drawn from prefix-colliding names %s plus random ones, through add_file / add_file_as / add_file_data in all orders (sets of 2-4) "
-                       "and random orders (up to 9); each generated module compiled with rustc; probes = every member plus truncations, extensions, case flips, hash neighbours, '-'->'_', empty string. "
+                       "and random orders (up to 9); four runs into one OUT_DIR with files edited (same length and mtime too), added and removed in between; each generated module compiled with rustc; probes = every member plus truncations, extensions, case flips, hash neighbours, '-'->'_', empty string. "
                        "non-trivial = at least 2 files; distinct by op list") % COLLIDERS[:8]
     chk.assumptions += ["core::slice::binary_search_by: transcribed in Static.v (bs_loop) and compared with the compiled get() on every probe"]
     return finish_checks(chk, proof, info, disagree, oracle_fail, len(hist))
@@ -616,6 +647,35 @@ def run_c20(pid, tier):
             for r in refs:
                 if added[r] not in css:
                     oracle_fail.append((key, "static_name(%r) did not resolve to the published name %r inside the compiled css" % (r, added[r]), css[:300].decode("latin1"))); break
+    # ---- several stylesheets on one StaticFiles with files added in between; stylesheets that compile to no output at all
+    seqs = []
+    firsts = ["p{c:red}", "", "$v: 1px;\n@mixin m { a: b }\n%ph { c: d }", "/* only a comment */", "// nothing\n", "@function f($x) { @return $x }"]
+    for _ in range(24 if tier == "quick" else 200):
+        f1 = rng.choice(firsts); early = rng.choice(mpool); late = rng.choice([m0 for m0 in mpool if m0 != early])
+        h0 = [("D", early, early.encode())]; h1 = [("D", late, b"late:" + late.encode())]
+        both = h0 + h1; urls = dict(zip([early, late], published_urls(both)))
+        second = 'r{u:static_name("%s")}s{u:static_name("%s")}' % (late, early)
+        line = " ".join([impl_line(h0), "W:%s:%s" % (hx("scss/first.scss"), hx(f1.encode())), "S:%s" % hx("scss/first.scss"), impl_line(h1),
+                         "W:%s:%s" % (hx("scss/second.scss"), hx(second.encode())), "S:%s" % hx("scss/second.scss")])
+        seqs.append((line, f1, early, late, urls))
+    for (line, f1, early, late, urls), a in zip(seqs, [parse_fields(l) for l in run_capture(HARNESS, "statics", [x[0] for x in seqs])]):
+        chk.count(line.encode(), True)
+        key = [("D", early, b""), ("S", "scss/first.scss", f1), ("D", late, b""), ("S", "scss/second.scss", "static_name(%s), static_name(%s)" % (late, early))]
+        ops = a.get("op") or []
+        if len(ops) < 4 or any(o != "ok" for o in ops):
+            bad = next((unhexs(o).decode("latin1")[:300] for o in ops if o != "ok"), "missing result")
+            oracle_fail.append((key, "a stylesheet compiled after another one, referring to a file added in between (%r) and one added before (%r), failed to build" % (late, early), bad)); continue
+        st = unhexs(a.get("statics", "-"))
+        for stem, musthave in (("first", []), ("second", [urls[late], urls[early]])):
+            m0 = re.search(rb'pub static ' + stem.encode() + rb'_css: StaticFile = StaticFile \{\n  content: b"((?:[^"\\]|\\.|\\\n)*)",\n  name: "((?:[^"\\]|\\.)*)"', st)
+            if not m0:
+                oracle_fail.append((key, "add_sass_file returned Ok but there is no item for the compiled stylesheet %s.css in statics.rs (source: %r)" % (stem, f1 if stem == "first" else "two references"), st[-400:].decode("latin1"))); break
+            css = rust_bytes(m0.group(1)); name = m0.group(2)
+            if name != stem.encode() + b"-" + py_slug(css) + b".css":
+                oracle_fail.append((key, "the compiled css is published as %r, which is not %s-<hash of the embedded css bytes>.css" % (name, stem), css[:120].decode("latin1"))); break
+            if any(u not in css for u in musthave):
+                oracle_fail.append((key, "static_name() of a file added between two stylesheets did not resolve to its published name inside the second one", css[:300].decode("latin1"))); break
+    chk.notes["stylesheet_sequences"] = len(seqs)
     import build_lib
     scen = []; meta2 = []
     for _ in range(8 if tier == "quick" else 60):
